@@ -84,6 +84,10 @@ pub const POOL: &[(&str, &str, &str)] = &[
     ("F1ALT", "/p/frag1.graphql", "fragment Frag1 on T { z }\nfragment Extra on T { w }\n"),
     ("BADF", "/p/frag1.graphql", "fragment on on T {"),
     ("MISS", "/p/missing.graphql", "query Miss { ...Nope }\n"),
+    // files in other directories whose own relative imports must be resolved against *their* directory
+    ("F2I", "/p/d/frag2.graphql", "#import Frag4 from \"./e/frag4.graphql\"\nfragment Frag2 on T { y ...Frag4 }\n"),
+    ("F4", "/p/d/e/frag4.graphql", "#import Extra from \"../../frag1.graphql\"\nfragment Frag4 on T { q }\n"),
+    ("R4", "/p/sub/deep/q.graphql", "#import Frag2 from \"../../d/frag2.graphql\"\nquery Q4 { ...Frag2 }\n"),
     ("SELF", "/p/self.graphql", "#import * from \"./self.graphql\"\n#import Frag2 from \"./d/../d/frag2.graphql\"\nquery Self { ...SelfF ...Frag2 }\nfragment SelfF on T { s }\n"),
 ];
 
@@ -416,6 +420,8 @@ pub fn alphabet(with_missing: bool) -> Vec<Op> {
         Op::Load(t0, "F2"),
         Op::Load(t1, "F1"),
         Op::Load(t0, "BADF"),
+        Op::Load(t0, "F2I"),
+        Op::Load(t0, "F4"),
         Op::Load(TRef::Never, "F1"),
         Op::Emit(t0),
         Op::Emit(t1),
@@ -432,8 +438,8 @@ pub fn alphabet(with_missing: bool) -> Vec<Op> {
 fn random_history(rng: &mut Rng, len: usize, with_missing: bool) -> Vec<Op> {
     let mut ops = vec![];
     let mut n_issued = 0usize;
-    let roots: &[&'static str] = if with_missing { &["R1", "R2", "R3", "BAD", "SELF", "MISS"] } else { &["R1", "R2", "R3", "BAD", "SELF"] };
-    let files: &[&'static str] = &["F1", "F2", "F1ALT", "BADF", "R3", "SELF"];
+    let roots: &[&'static str] = if with_missing { &["R1", "R2", "R3", "R4", "BAD", "SELF", "MISS"] } else { &["R1", "R2", "R3", "R4", "BAD", "SELF"] };
+    let files: &[&'static str] = &["F1", "F2", "F2I", "F4", "F1ALT", "BADF", "R3", "SELF"];
     for _ in 0..len {
         let tref = |rng: &mut Rng, n: usize| -> TRef {
             if n == 0 || rng.chance(1, 8) {
